@@ -323,6 +323,19 @@ inline rc::Gen<FrameHistory> genFrameHistory(const HistoryGenParams& params)
                 s.nextSeq = static_cast<uint16_t>(f.seq + 1);
             hist.frames.push_back(std::move(f));
         }
+        // one history in five: frames that arrive twice - a copy of an earlier frame 1..4 positions later (mirror ports, redundant
+        // links); the endpoint's own traffic continues as if nothing had happened
+        if (hist.frames.size() >= 2 && *range<int>(0, 4) == 0)
+        {
+            int k = *range<int>(1, 3);
+            for (int j = 0; j < k; ++j)
+            {
+                size_t i = *range<size_t>(0, hist.frames.size() - 1);
+                size_t at = std::min(hist.frames.size(), i + *range<size_t>(1, 4));
+                FrameRecipe copy = hist.frames[i];
+                hist.frames.insert(hist.frames.begin() + static_cast<long>(at), copy);
+            }
+        }
         if (params.closeAtEnd)
         {
             for (int e = 0; e < nEp; ++e)
